@@ -149,6 +149,11 @@ class Sim(object):
                 if ln != last[0]:
                     last[0] = ln
                     sim.line_point(frame)
+            elif event == 'return':
+                # a target frame returns (or yields) into its caller: a point in the middle of the caller's source line,
+                # e.g. between a property read and the use of its value in the same expression
+                last[0] = None
+                sim.line_point(frame)
             return local
         return local
 
